@@ -125,6 +125,12 @@ func registerAll() {
 				tail = T(kw("persist"))
 			}
 			return sent(T(kw("getex"), d(a.S[0])), tail)
+		},
+		class: func(a A) (string, string) {
+			if a.I[0] == 0 {
+				return siteA + "GetEx", "zero-expiration-no-persist"
+			}
+			return "", ""
 		}})
 	emodes := []string{"EmNone", "EmNX", "EmXX", "EmGT", "EmLT"}
 	register(method{name: "Expire",
@@ -343,7 +349,12 @@ func registerAll() {
 		},
 		call: func(c compat.Cmdable, a A) compat.Cmder { return c.Scan(ctx, a.U, a.S[0], a.I[0]) },
 		coq:  func(a A) string { return app("MScan", cN(a.U), cS(a.S[0]), cZ(a.I[0])) },
-		ref:  func(a A) Ref { return sent(T(kw("scan"), du(a.U)), scanTail(a.S[0], a.I[0])) }})
+		ref: func(a A) Ref {
+			if a.U >= 1<<63 {
+				return Ref{Status: refUncertain} // the adapter prints int64(cursor): whether Redis accepts the negative spelling depends on its version
+			}
+			return sent(T(kw("scan"), du(a.U)), scanTail(a.S[0], a.I[0]))
+		}})
 	register(method{name: "ScanType",
 		gen: func(r *gen.Rand) A {
 			return A{U: gCursor(r), S: []string{gen.Pick(r, []string{"", "*", "k*"}), gen.Pick(r, []string{"", "string", "zset", "x"})}, I: []int64{gInt(r)}}
@@ -351,6 +362,9 @@ func registerAll() {
 		call: func(c compat.Cmdable, a A) compat.Cmder { return c.ScanType(ctx, a.U, a.S[0], a.I[0], a.S[1]) },
 		coq:  func(a A) string { return app("MScanType", cN(a.U), cS(a.S[0]), cZ(a.I[0]), cS(a.S[1])) },
 		ref: func(a A) Ref {
+			if a.U >= 1<<63 {
+				return Ref{Status: refUncertain}
+			}
 			return sent(T(kw("scan"), du(a.U)), scanTail(a.S[0], a.I[0]), If(a.S[1] != "", kw("type"), d(a.S[1])))
 		}})
 	register(method{name: "KScan",
@@ -373,6 +387,9 @@ func registerAll() {
 			return app("MKScan", []string{"KSScan", "KHScan", "KHScanNoValues", "KZScan"}[a.I[1]], cS(a.S[0]), cN(a.U), cS(a.S[1]), cZ(a.I[0]))
 		},
 		ref: func(a A) Ref {
+			if a.U >= 1<<63 {
+				return Ref{Status: refUncertain}
+			}
 			cmd := []string{"sscan", "hscan", "hscan", "zscan"}[a.I[1]]
 			return sent(T(kw(cmd), d(a.S[0]), du(a.U)), scanTail(a.S[1], a.I[0]), If(a.I[1] == 2, kw("novalues")))
 		}})
@@ -1172,5 +1189,10 @@ func registerAll() {
 		gen:  func(r *gen.Rand) A { return A{I: []int64{gInt(r)}} },
 		call: func(c compat.Cmdable, a A) compat.Cmder { return c.ACLLog(ctx, a.I[0]) },
 		coq:  func(a A) string { return app("MACLLog", cZ(a.I[0])) },
-		ref:  func(a A) Ref { return sent(T(kw("acl"), kw("log")), If(a.I[0] > 0, di(a.I[0]))) }})
+		ref: func(a A) Ref {
+			if a.I[0] <= 0 {
+				return Ref{Status: refUncertain} // go-redis leaves the count out unless positive (moderately certain); the adapter always sends it
+			}
+			return sent(T(kw("acl"), kw("log"), di(a.I[0])))
+		}})
 }
